@@ -70,13 +70,13 @@ def check_C04(c):
     c.mc('MC_Interpret', _q(c, 'MC_Interpret_q.cfg', 'MC_Interpret_t.cfg'), workers=8, heap='8g')
     jobs = []
     for jn, meta, model in _export_trees(c, 'MC_Interpret', _q(c, 'MC_InterpretX_q.cfg', 'MC_InterpretX_t.cfg')):
-        jobs.append(('tr_interpret', dict(node=jn, meta=meta, model=model)))
+        jobs.append(('tr_interpret', dict(node=jn, meta=meta, model=model, shape=_shape(jobs))))
     n_exp = len(jobs)
     for jn, meta in _corpus_trees():
         for m in MODELS4:
             jobs.append(('tr_interpret', dict(node=jn, meta=meta, model=m)))
     for jn, meta in _random_trees(c, _q(c, 3000, 60000)):
-        jobs.append(('tr_interpret', dict(node=jn, meta=meta, **_mdl(c))))
+        jobs.append(('tr_interpret', dict(node=jn, meta=meta, shape=_shape(jobs), **_mdl(c))))
     traces = pmake(jobs, optimized_share=0.02)
     c.judge('J_Layout', traces, 'interpret', nontrivial=lambda t: len(t['tree']['br']) >= 2)
     c.rule = ('trees enumerated by TLC (MC_Interpret export: duplicate definitions, cycles, over-inverted roles, aligned roles and '
@@ -320,6 +320,11 @@ def check_C05(c):
 
 
 # ------------------------------------------------------------------------ C10
+def _shape(jobs):
+    """One job in 13 hands the library a tree that went through JSON: nested nodes and branches are lists, not tuples."""
+    return 'list' if len(jobs) % 13 == 5 else None
+
+
 FORMATS = [['{prefix}', '{j}'], ['{prefix}', '{i}'], ['x', '{i}'], ['v', '{j}'], ['{prefix}', '_', '{i}'], ['{i}', '{prefix}'],
            ['{prefix}', '{i}', '{j}'], ['n', '{j}', '{prefix}'], ['{prefix}'], ['v'], ['{j}'], ['{i}']]
 
@@ -340,7 +345,7 @@ def check_C10(c):
         trees.append((gen.node_to_json(node), meta))
     for jn, meta in trees:
         for fmt in c.rng.sample(FORMATS, 2):
-            jobs.append(('tr_relabel', dict(node=jn, meta=meta, fmt=fmt, timeout=1.0 if '{' not in ''.join(fmt[-1:]) else 2.0)))
+            jobs.append(('tr_relabel', dict(node=jn, meta=meta, fmt=fmt, shape=_shape(jobs), timeout=1.0 if '{' not in ''.join(fmt[-1:]) else 2.0)))
     traces = pmake(jobs, procs=16, optimized_share=0.03)
     c.judge('J_Layout', traces, 'relabel', nontrivial=lambda t: len(t['tree']['br']) >= 2)
     c.rule = ('corpus trees and random well-formed trees (concepts/constants equal to variable names, aligned re-entrancies, '
